@@ -18,14 +18,19 @@ def _nontrivial(req, out):
 CFG = {
     "level": "translation_validation",
     "level_text": "Translation validation with a proved oracle: Lean reference loader `loadRef` + renderer for the generated "
-                  "presentation subset; PROVED for all inputs: UTF-8 byte layer, layer 1 (flow collections + double-quoted "
-                  "scalars/keys, all null/bool spellings, decimal ints; render_load_flow), line-break layer 5 for every stream "
-                  "(render_load_breaks) and layers 1+5 combined; layers 2,3,4,6,7 are `render_load_partial_<layer>`: kernel-evaluated "
-                  "on explicit finite families only, their quantifier is carried by the correspondence (driver re-evaluates "
-                  "loadRef(render s) = trees on every generated stream); the 7 000-line Rust oracle parser is NOT modelled, "
-                  "only its observable result (YamlIndex::build + YamlValue traversal + to_json) is tied to loadRef and to "
-                  "the generated tree on every generated stream; loadRef is validated as YAML on the in-subset cases of the "
-                  "repository's YAML Test Suite recording.",
+                  "presentation subset. PROVED for all inputs (render_load / render_load_full): for EVERY admissible stream "
+                  "loadRef(render s) = s.trees - the UTF-8 byte layer, layer 1 (flow collections, double-quoted scalars/keys), "
+                  "layer 2 (block mappings/sequences with nesting, indentation steps, compact forms, plain/single/double "
+                  "scalars and keys, every null/bool/int spelling), layer 3 (literal and folded block scalars, every chomping "
+                  "indicator, content indentation 1-9 with or without indicator, folds, at any depth and as a document root), "
+                  "layer 4 (comment lines, blank lines and trailing comments wherever `admissible` allows them), layer 5 "
+                  "(LF/CRLF/CR), layer 6 (anchors and aliases in flow and block context, scoping as in `PNode.scope`) and "
+                  "layer 7 (`---`/`...`, any number of documents, root node on the marker line, filler lines between documents). "
+                  "No layer is left to run-time evaluation; the driver still re-evaluates loadRef(render s) = trees and "
+                  "`admissible` on every generated stream. "
+                  "The 7 000-line Rust oracle parser is NOT modelled, only its observable result "
+                  "(YamlIndex::build + YamlValue traversal + to_json, and `yq -o json`) is tied to loadRef and to the "
+                  "generated tree; loadRef is validated as YAML on the in-subset cases of the repository's YAML Test Suite.",
     "level_note": "Trusts Lean kernel, the harness's Rust twin of `render` (checked byte-for-byte against the Lean `render` on "
                   "every request: RENDER-MISMATCH otherwise), the wire format, and the differential harness.",
     "technique": "Lean 4 reference loader + round-trip theorems over a rendered subset; differential correspondence and "
@@ -33,8 +38,10 @@ CFG = {
     "variants": [{"features": [], "env": {"SV_CLI": _CLI}}],
     "needs_cli": True,
     "lean_modules": ["SuccinctlyVerif.Props.C14"],
-    "required_theorems": ["SV.Props.C14.render_load_flow", "SV.Props.C14.render_load_breaks", "SV.Props.C14.render_load_flow_breaks"],
-    "lean_files": ["SuccinctlyVerif/Props/C14.lean", "SuccinctlyVerif/Proof/YamlRoundTrip.lean", "SuccinctlyVerif/Proof/YamlFamilies.lean",
+    "required_theorems": ["SV.Props.C14.render_load_flow", "SV.Props.C14.render_load_breaks", "SV.Props.C14.render_load_flow_breaks",
+                          "SV.Props.C14.render_load_block", "SV.Props.C14.render_load_block_breaks",
+                          "SV.Props.C14.render_load", "SV.Props.C14.render_load_full", "SV.Props.C14.render_load_docs"],
+    "lean_files": ["SuccinctlyVerif/Props/C14.lean", "SuccinctlyVerif/Proof/YamlRoundTrip.lean", "SuccinctlyVerif/Proof/YamlRefBlock.lean", "SuccinctlyVerif/Proof/YamlRefBlockScalar.lean", "SuccinctlyVerif/Proof/YamlRefDocs.lean", "SuccinctlyVerif/Proof/YamlFamilies.lean",
                    "SuccinctlyVerif/Spec/YamlRef.lean", "SuccinctlyVerif/Spec/YamlTree.lean",
                    "SuccinctlyVerif/Spec/YamlLoad.lean"],
     "generated": [],
